@@ -101,3 +101,48 @@ Theorem C19_validated_routes_needs_normal_template_refuted :
                    wf_template (op_path o) = false /\ route_added (build_api regs) d o = false.
 Proof. exact validated_routes_needs_normal_template_refuted. Qed.
 Print Assumptions C19_validated_routes_needs_normal_template_refuted.
+
+(* ---- state carried across calls ----
+   Validate keeps nothing between calls on one API value: after any batches of registrations the k-th answer is the one a
+   fresh value gives when handed every registration made so far (the check runs the same history on the real API value
+   and on fresh ones) ... *)
+Theorem C19_validate_history_fresh : forall d steps a k r,
+  nth_error (validate_history a d steps) k = Some r ->
+  r = validate (fold_left apply_reg (concat (firstn (S k) steps)) a) d.
+Proof. exact validate_history_fresh. Qed.
+Print Assumptions C19_validate_history_fresh.
+
+(* ... and every answer of the history is what the property demands of the registrations as they then stand (history_ok is
+   the predicate the check evaluates on the answers of API.Validate) *)
+Theorem C19_validate_history_meets_prop : forall d steps a, history_ok a d (model_more a d steps) = true.
+Proof. exact model_history_ok. Qed.
+Print Assumptions C19_validate_history_meets_prop.
+
+(* a handler keeps nothing between requests: a history of requests is answered request by request *)
+Theorem C19_serve_history_is_map : forall a d rqs, serve_history a d rqs = map (serve_one a d) rqs.
+Proof. exact serve_history_is_map. Qed.
+Print Assumptions C19_serve_history_is_map.
+
+(* a well-formed request (credentials covering one alternative requirement, a body in an admitted media type in any
+   letter case with or without parameters, an Accept header absent or acceptable) to a declared operation of a validated
+   API over a simple description is never turned away for lack of a consumer (1), a route or handler (4), an admitted
+   content type (5), an authenticator (7) *)
+Theorem C19_validated_wf_request : forall regs d o rq,
+  validate (build_api regs) d = None -> In o (g_ops d) -> simple_desc d = true ->
+  wf_base (g_base d) = true -> wf_template (op_path o) = true ->
+  wf_request (build_api regs) d o rq = true ->
+  let k := rs_outcome (serve_request (build_api regs) d o rq) in k <> 1 /\ k <> 4 /\ k <> 5 /\ k <> 7.
+Proof. exact validated_wf_request. Qed.
+Print Assumptions C19_validated_wf_request.
+
+(* ... more precisely: its handler runs and the response is written with status 200 by some producer, or Respond finds
+   no producer for the negotiated format (excluded for every offered format by C19_validated_producer_for_every_offer;
+   the remaining case, nothing offered and no default, is F-C19-1) *)
+Theorem C19_validated_wf_request_served : forall regs d o rq,
+  validate (build_api regs) d = None -> In o (g_ops d) -> simple_desc d = true ->
+  wf_base (g_base d) = true -> wf_template (op_path o) = true ->
+  wf_request (build_api regs) d o rq = true ->
+  (exists ct p, serve_request (build_api regs) d o rq = mkres 0 ct p) \/
+  serve_request (build_api regs) d o rq = res_fail 2.
+Proof. exact validated_wf_request_served. Qed.
+Print Assumptions C19_validated_wf_request_served.
